@@ -22,7 +22,7 @@ from harness import common as cm
 from harness import c02
 
 PID = 'C04'
-BOUNDS = {'quick': dict(M='1..3', K='1..4 (IMEX <=3)', node_families=2, z='all reals with non-zero denominators', rk_classes=26), 'thorough': dict(M='1..5', K='1..7', node_families=6, cross_check_interval='z in [-1/4, 1/4]')}
+BOUNDS = {'quick': dict(M='1..3', K='1..4 (IMEX <=3)', node_families=2, z='all reals with non-zero denominators', rk_classes=26), 'thorough': dict(M='1..4 (5 for LEGENDRE with RADAU-RIGHT or GAUSS)', K='1..7', node_families=6, cross_check_interval='z in [-1/4, 1/4]')}
 TOL = Fraction(1, 10**12)
 
 
@@ -58,6 +58,8 @@ def tasks(tier, seed):
                         continue
                     if quick and nt == 'EQUID' and (qt != 'RADAU-RIGHT' or M != 3):
                         continue
+                    if M == 5 and (nt != 'LEGENDRE' or qt not in ('RADAU-RIGHT', 'GAUSS')):
+                        continue  # five nodes only for the two most used rules (solver time)
                     for qd in qds:
                         if quick and qt in ('GAUSS', 'RADAU-LEFT') and (qd[0] not in ('LU', 'EE') or qd[-1] == 'LF' or M == 1):
                             continue
@@ -283,7 +285,9 @@ def sdc_case(rep, kind, M, nt, qt, qd, Ks, cu):
             # sensitivity: the next coefficient is NOT matched when K < p (otherwise the test could not see a lost order)
         if K == max(Ks) and M >= 2 and kind != 'imex_1st_order':
             bad = spec_recursion(kind, {k_: (v + (1e-9 if k_ == 'Q' else 0) * np.eye(M + 1, k=-1)) for k_, v in mats.items()}, weights, K, zI, zE, copy_mode)
-            res, _ = prove(terms[K] == bad, den, name=f'{name}/K{K}:mutated', kind='vacuity')
+            # witness at a pinned rational argument (the solver only has to evaluate; the free-z query with a 1e-9 perturbation is beyond nlsat for K = 7)
+            pin = [zI == rv(Fraction(-1, 2))] + ([zE == rv(Fraction(1, 8))] if kind == 'imex_1st_order' else [])
+            res, _ = prove(z3.Or(terms[K] == bad, z3.Not(z3.And(pin))), den, name=f'{name}/K{K}:mutated', kind='vacuity')
             rep.vac(f'{name}/K{K}:mutated-spec-refuted', res, 'sat')
         # (iii) solver cross-check without oracle matrices
         if rep.tier != 'quick' and kind != 'imex_1st_order' and M <= 3 and K <= 5:
@@ -292,7 +296,7 @@ def sdc_case(rep, kind, M, nt, qt, qd, Ks, cu):
             d = terms[K] - T
             az = z3.If(z >= 0, z, -z)
             bound = rv(5) * pw(az, q + 1) + rv(1e-10)
-            res, model = satisfiable(den + [z >= rv(-0.25), z <= rv(0.25), z3.Or(d > bound, -d > bound)], timeout_ms=120000, name=f'{name}/K{K}:taylor-bound',
+            res, model = satisfiable(den + [z >= rv(-0.25), z <= rv(0.25), z3.Or(d > bound, -d > bound)], timeout_ms=20000, name=f'{name}/K{K}:taylor-bound',
                                      kind='validity')
             if res == 'unknown':
                 rep.note(f'{name}/K{K}: cross-check (iii) undecided (not part of the claim)')
